@@ -411,7 +411,7 @@ func c13Mutate(r *Rng, b []byte) []byte {
 	return d
 }
 
-func twosComplement(v *big.Int) []byte {
+func c13_twosComplement(v *big.Int) []byte {
 	if v.Sign() >= 0 {
 		b := v.Bytes()
 		if len(b) == 0 || b[0]&0x80 != 0 {
@@ -449,16 +449,16 @@ var c13IntBoundary = []string{"0", "1", "-1", "127", "128", "-128", "-129", "255
 func randInt(r *Rng) []byte {
 	switch r.Intn(4) {
 	case 0:
-		return twosComplement(bigOf(c13IntBoundary[r.Intn(len(c13IntBoundary))]))
+		return c13_twosComplement(bigOf(c13IntBoundary[r.Intn(len(c13IntBoundary))]))
 	case 1:
-		return twosComplement(big.NewInt(int64(r.U64())))
+		return c13_twosComplement(big.NewInt(int64(r.U64())))
 	default:
 		n := 1 + r.Intn(24)
 		v := new(big.Int).SetBytes(r.Bytes(n))
 		if r.Bool() {
 			v.Neg(v)
 		}
-		return twosComplement(v)
+		return c13_twosComplement(v)
 	}
 }
 
@@ -780,7 +780,7 @@ func genC13(c *Ctx) {
 		c13Typed(c, "boundary", 4, 0, false, 23, []byte(s))
 	}
 	for _, s := range c13IntBoundary {
-		b := twosComplement(bigOf(s))
+		b := c13_twosComplement(bigOf(s))
 		c13Value(c, "int-boundary", 0, 2, b)
 		c13Typed(c, "boundary", 1, 0, false, 2, b)
 		// non-minimal variants
